@@ -398,6 +398,45 @@ theorem stream_wire_is_ciphertext {W WC} (ci : Cipher W WC) (cfg : ServerCfg) (c
     have := hready readers[i] (List.getElem_mem hi) hs
     simp [hi, this]
 
+/-- **fanout_per_reader.**  Whatever the reader population of a TLS server's stream — any number of
+readers, any mix of RTP/SAVP readers and RTP/AVP-inside-TLS readers, in any order — EACH reader is
+served according to ITS OWN session media: a reader that owns an outgoing context gets the `E` image
+under the stream's key, a reader without one gets the plain packet (it travels inside TLS).  The
+other readers have no influence. -/
+theorem fanout_per_reader {W WC} (ci : Cipher W WC) (cfg : ServerCfg) (htls : cfg.tls = true) (c0 : Ctx)
+    (pre post : List SessMedia) (r : SessMedia) (p : Pkt) (out : Option Ctx) (fs : List (Frame W))
+    (h : streamWriteRTP ci (streamCtx cfg c0) (pre ++ r :: post) p = some (out, fs)) :
+    ∃ roc, fs[pre.length]? = some
+      (if r.srtpOut.isSome
+        then ({ ssrc := p.ssrc, seq := p.seq, body := .prot (ci.E c0.key c0.mki p.ssrc roc p.seq p.payload) } : Frame W)
+        else { ssrc := p.ssrc, seq := p.seq, body := .plain p.payload }) := by
+  have hsc : streamCtx cfg c0 = some c0 := by simp [streamCtx, Sec.streamCtxIffTLS, htls]
+  rw [hsc] at h
+  simp only [streamWriteRTP] at h
+  split at h
+  · cases h
+  · rename_i st' encr hw
+    obtain ⟨roc, rfl, _⟩ := wire_is_ciphertext ci c0 p st' encr hw
+    simp only [Option.some.injEq, Prod.mk.injEq] at h
+    obtain ⟨_, rfl⟩ := h
+    exact ⟨roc, by simp⟩
+
+/-- the same for the stream's RTCP sender reports -/
+theorem fanout_per_reader_rtcp {W WC} (ci : Cipher W WC) (cfg : ServerCfg) (htls : cfg.tls = true) (c0 : Ctx)
+    (pre post : List SessMedia) (r : SessMedia) (ssrc : Nat) (p : Bytes) (out : Option Ctx) (bs : List (BodyC WC))
+    (h : streamWriteRTCP ci (streamCtx cfg c0) (pre ++ r :: post) ssrc p = some (out, bs)) :
+    ∃ idx, bs[pre.length]? = some (if r.srtpOut.isSome then .prot (ci.Ec c0.key c0.mki ssrc idx p) else .plain p) := by
+  have hsc : streamCtx cfg c0 = some c0 := by simp [streamCtx, Sec.streamCtxIffTLS, htls]
+  rw [hsc] at h
+  simp only [streamWriteRTCP] at h
+  split at h
+  · cases h
+  · rename_i st' encr hw
+    obtain ⟨idx, rfl⟩ := wire_is_ciphertext_rtcp ci c0 ssrc p st' encr hw
+    simp only [Option.some.injEq, Prod.mk.injEq] at h
+    obtain ⟨_, rfl⟩ := h
+    exact ⟨idx, by simp⟩
+
 /-- **tamper_not_delivered.**  Whatever a receiver that owns a context hands to the application is
 the payload of an `E` image under ITS key and MKI for the SSRC and sequence number written in the
 frame; a frame that is not such an image (altered body, altered SSRC or sequence number, plain
